@@ -637,7 +637,7 @@ AnnouncedSizeHonest(r) ==
 
 (* C09: for programs whose statements all have even, base-independent sizes, the images at two bases have the
    same length and differ, word by word, either not at all or by exactly the difference of the bases *)
-EvenSized(items) == \A i \in DOMAIN items : items[i].s.k \notin {"even", "odd", "align", "skip", "dotset", "byte", "ascii", "insert", "blkb"}
+EvenSized(items) == \A i \in DOMAIN items : items[i].s.k \notin {"even", "odd", "align", "skip", "dotset", "byte", "ascii", "asciic", "insert", "blkb"}
 (* the law speaks of words holding an address; an address scaled by * / % << >> is not one (conservative syntactic test) *)
 RECURSIVE Mentions(_), Scaled(_)
 Mentions(e) == CASE e.t \in {"sym", "dot"} -> TRUE [] e.t = "num" -> FALSE [] e.t = "neg" -> Mentions(e.e)
